@@ -253,9 +253,16 @@ pub fn judge_with_cursors(model: &Model, scn: &ReadScn, log: &RunLog, o: &JudgeO
         // model-independent: once a read has reported the end (in a call without fault or refusal)
         // every later read reports the end as well, until a seek or a new reader
         {
+            // With a growing input (Cfg::pause: data arrive after a read returned Ok(0)) only one
+            // and the same iterator object is bound to stay at the end (C20), i.e. the items of a
+            // drain; a later next() / records() call may legitimately see the new data.
+            let growing = scn.cfgs.first().map(|c| c.pause.is_some()).unwrap_or(false);
+            if growing && !matches!(step.op, Op::Drain) {
+                end_reported = false;
+            }
             let outs: Vec<&Out> = match (&step.op, &step.out) {
                 (Op::Drain, Out::Drained(v)) => v.iter().collect(),
-                (Op::Next | Op::OwnedNext | Op::ReadSet(_) | Op::ReadSetExact(_, _), o) => vec![o],
+                (Op::Next | Op::OwnedNext | Op::ReadSet(_) | Op::ReadSetExact(_, _), o) if !growing => vec![o],
                 _ => vec![],
             };
             for one in outs {
@@ -265,6 +272,8 @@ pub fn judge_with_cursors(model: &Model, scn: &ReadScn, log: &RunLog, o: &JudgeO
                             end_reported = true;
                         }
                     }
+                    // (a source error that fired in this very call is the source's, not the reader's)
+                    Out::Err(e, _) if end_reported && fault && !e.is_format() => {}
                     Out::Rec(_) | Out::Err(_, _) if end_reported => {
                         viol("end_not_sticky", format!("{}: returned {} although an earlier read had reported the end of the input (no seek in between)", at, crate::checks2::brief(one)));
                         end_reported = false;
